@@ -176,7 +176,7 @@ def r_man_plain(s, m, ab):
 
 def r_man_locale(s, m, ab):
     r = Rule('man_locale', s, m)
-    base = nm(s, 'manb')
+    base = nm(s, 'man.frb')      # the locale text also occurs elsewhere in the name: only the component before the section is stripped
     f = base + '.fr.2'
     r.snippet = 'install_man(%s, locale: \'fr\'%s)' % (q(f), _modekw(m))
     r.files[f] = ('.TH MANB 2\n', 0o644)
